@@ -211,6 +211,10 @@ class MT:
                 c = snap.fork()
                 c.frames = []; c.ext['events'] = []; c.ext['asserts'] = []; c.ext['spawns'] = []; c.ext['touched'] = {}
                 c.pc = list(snap.pc)
+                # thread_local variables: the new thread gets its own, freshly initialised copies
+                for gname, gobj in irm.gobj.items():
+                    if gobj.kind == 'tls' and gobj.base in c.mem:
+                        o = c.wobj(c.mem[gobj.base]); o.data = list(irm.base_state.mem[gobj.base].data)
                 c.ext['own_from'] = c.next_addr
                 c.next_addr += 0x10000000 * k
                 vptr = cells_int(c.mem[c.find(stateobj).base].data[stateobj - c.find(stateobj).base:][:8])
@@ -493,6 +497,8 @@ def x_thread_join(eng, st, a):
     if k == 0:
         eng.throw_std(st, '_ZTISt12system_error', 'join on a non-joinable thread')
     eng.mt._ev(st, Ev(st.ext.get('tid', 0), 'join', 0, 0, None, None, eng.where(st)[:120], aux=k))
+    eng.mem_write(st, a[0], int_cells(0, 8))                     # the id is reset by an ordinary store of the calling thread
+    o, off = eng.resolve(st, a[0], 8, True)
     o = st.wobj(o); o.data[off:off + 8] = int_cells(0, 8)
 
 
@@ -503,6 +509,8 @@ def x_thread_detach(eng, st, a):
     k = cells_int(o.data[off:off + 8])
     if k == 0:
         eng.throw_std(st, '_ZTISt12system_error', 'detach on a non-joinable thread')
+    eng.mem_write(st, a[0], int_cells(0, 8))
+    o, off = eng.resolve(st, a[0], 8, True)
     o = st.wobj(o); o.data[off:off + 8] = int_cells(0, 8)
 
 
